@@ -1007,6 +1007,62 @@ func (c *hmapClassifier) hashHelperKind(sel *ast.Ident) string {
 	return ""
 }
 
+// checkMoves: wherever an entry is taken out of the order list and linked in again at an end (the
+// forced puts, but also read-with-refresh methods like GetLRU), the move is guarded by "not already at
+// that end" — testing the other end moves an entry that is already in place and, worse, skips the one
+// that needs moving.
+func (h *hmapType) checkMoves() {
+	if !h.linked {
+		return
+	}
+	for _, fi := range h.p.MethodsOf(h.t) {
+		if fi.Decl.Body == nil {
+			continue
+		}
+		switch fi.Obj.Name() {
+		case "put", "add", "_add", "addNoOver", "Sort", "remove", "clear", "rehash":
+			continue // insertion helpers are judged per mode by the update rule
+		}
+		cl := newHmapClassifier(fi)
+		ps, over := h.enumerate(fi, cl, "")
+		if over {
+			continue
+		}
+		var probs []string
+		moves := 0
+		for _, pa := range ps {
+			ui := pa.Index("UNLINK")
+			if ui < 0 {
+				continue
+			}
+			for _, e := range pa[ui:] {
+				if e.Kind != "LINK" {
+					continue
+				}
+				moves++
+				guardL := "header.link_next"
+				if e.Arg == "last" {
+					guardL = "header.link_prev"
+				}
+				if e.Arg != "first" && e.Arg != "last" {
+					probs = append(probs, "an entry is re-linked at an unrecognised position")
+				} else if !pa.HasArg("COND", cc(guardL, "!=", "e", true)) {
+					probs = append(probs, "an entry is moved to the "+e.Arg+" end without first testing that it is not already there (the guard tests the other end or is missing): the entry that is already in place is moved, the one that is not stays")
+				}
+			}
+		}
+		if moves == 0 {
+			continue
+		}
+		c := h.name + "." + fi.Obj.Name() + " move"
+		if len(probs) > 0 {
+			h.r.Viol(h.pre+".update", c, h.p.Pos(fi.Decl.Pos()), strings.Join(uniq(probs), "; "))
+		} else {
+			h.r.OK(h.pre+".update", c, h.p.Pos(fi.Decl.Pos()), "moves guarded by not-already-at-that-end")
+		}
+	}
+}
+
 // checkRehash: structure of rehash() and agreement of the hash used for re-bucketing with lookups.
 func (h *hmapType) checkRehash() {
 	rel := core.RelPkg(h.t.Obj().Pkg().Path())
